@@ -30,7 +30,7 @@ type C02Plan struct {
 	Table    TableSpec    `json:"table"`
 	A        Presentation `json:"a"`
 	B        Presentation `json:"b"`
-	Mutation string       `json:"mutation"` // cell | colname | swapcols | pk | none
+	Mutation string       `json:"mutation"` // cell | colname | swapcols | pk | pkorder | none
 	MutRow   int          `json:"mut_row"`
 	MutCol   int          `json:"mut_col"`
 	OldMtime bool         `json:"old_mtime"` // cli: set the rewritten file's mtime before the commit time
@@ -46,7 +46,7 @@ func genPresentation(r *Rand) Presentation {
 func init() {
 	Register(&Profile{
 		ID: "C02", Prop: "C02",
-		Rule: "one logical table (unique keys) under two presentations (row permutation x delimiter x run size x worker count x store-op schedule x same/other store) must get one identifier and add no object on re-ingest; exactly one mutation (cell / column name / column swap / key) must change it; CLI variant: commit --set-file, rewrite the file permuted, commit again => 'hasn't changed', ref and reflog untouched (file mtime before/after the fake commit time); non-trivial = >=3 rows and presentations differ in >=2 knobs; distinct by plan hash",
+		Rule: "one logical table (unique keys) under two presentations (row permutation x delimiter x run size x worker count x store-op schedule x same/other store) must get one identifier and add no object on re-ingest; exactly one mutation (cell / column name / column swap / key / order of the key columns) must change it; CLI variant: commit --set-file, rewrite the file permuted, commit again => 'hasn't changed', ref and reflog untouched (file mtime before/after the fake commit time); non-trivial = >=3 rows and presentations differ in >=2 knobs; distinct by plan hash",
 		Gen: func(seed uint64, tier string) any {
 			r := NewRand(seed)
 			p := C02Plan{Kind: "lib"}
@@ -60,7 +60,7 @@ func init() {
 				p.B.Cfg.RunSize = Pick(r, []uint64{1, 64, 512, 4096})
 				p.B.Cfg.FsizeLimit = Pick(r, []uint64{1, 7, 60, 300, 1000, 4000, 20000})
 			}
-			p.Mutation = Pick(r, []string{"cell", "cell", "colname", "swapcols", "pk", "none"})
+			p.Mutation = Pick(r, []string{"cell", "cell", "colname", "swapcols", "pk", "pkorder", "none"})
 			p.MutRow, p.MutCol = r.Intn(1000), r.Intn(8)
 			p.OldMtime = r.Chance(0.5)
 			p.Interleave = p.Kind == "lib" && r.Chance(0.2)
@@ -226,6 +226,13 @@ func execC02(t *testing.T, raw json.RawMessage, res *Result) {
 			mrows = DedupeByKey(mcols, mpk, mrows)
 		}
 		mutated = true
+	case "pkorder":
+		// the same key columns listed in another order are another key (rows sort differently, Table.PK differs)
+		if len(mpk) >= 2 {
+			mpk = append(mpk[1:len(mpk):len(mpk)], mpk[0])
+			mutated = true
+			res.probe("key_order_mutation", 1)
+		}
 	}
 	if mutated {
 		mrows = NormaliseCSV(mcols, mrows)
